@@ -3398,7 +3398,12 @@ func postProcessOptions(opts *Options) error {
 func parseShellWords(str string) ([]string, error) {
 	parser := shellwords.NewParser()
 	parser.ParseComment = true
-	return parser.Parse(str)
+	words, err := parser.Parse(str)
+	if err == nil && parser.Position >= 0 {
+		// The parser stops at an unquoted shell metacharacter and ignores the rest
+		return nil, fmt.Errorf("unquoted %q; the rest of the string would be ignored", str[parser.Position:parser.Position+1])
+	}
+	return words, err
 }
 
 // ParseOptions parses command-line options
